@@ -9,6 +9,7 @@ V = os.path.dirname(os.path.dirname(os.path.abspath(__file__)))
 seed, prop, src = sys.argv[1], sys.argv[2], sys.argv[3]
 needs = sys.argv[sys.argv.index("--needs") + 1] if "--needs" in sys.argv else ""
 fast = "--skip-suite" in sys.argv
+xd = ("-n " + sys.argv[sys.argv.index("--xdist") + 1] + " ") if "--xdist" in sys.argv else ""   # pytest-xdist workers (same tests, same verdicts, shorter wall)
 wt = f"/tmp/confirm_{seed}"
 subprocess.run(["git", "-C", "/repo", "worktree", "remove", "--force", wt], capture_output=True)
 subprocess.run(["git", "-C", "/repo", "worktree", "add", "-q", "--detach", wt, "HEAD"], check=True)
@@ -28,7 +29,7 @@ try:
             t0 = time.time()
             xml = f"/tmp/confirm_{seed}.xml"
             subprocess.run("/venv/bin/python -m pytest -ra -q -p no:cacheprovider --timeout=900 --continue-on-collection-errors "
-                           f"--junitxml={xml} > /tmp/confirm_{seed}.log 2>&1", shell=True, cwd=wt, env=dict(os.environ, MPLBACKEND="Agg"))
+                           f"{xd}--junitxml={xml} > /tmp/confirm_{seed}.log 2>&1", shell=True, cwd=wt, env=dict(os.environ, MPLBACKEND="Agg"))
             base = json.load(open("/root/.vp/BASELINE.json"))
             got = {}
             for tc in ET.parse(xml).getroot().iter("testcase"):
